@@ -30,7 +30,8 @@ import (
 //                                   state = the variables declared before the loop that the body assigns
 //   p.f, *p  (p a pointer)          qdo t <- deref p;   (QNilDeref when p is nil)
 //   &x                              Some v_x   (x a local struct assigned exactly once: nothing can change the pointee)
-//   return errors.New(..)           Some n, n = the index of that errors.New call in the function, in source order
+//   return errors.New(..)           Some n, n = the index of its message literal among the DISTINCT message literals of the
+//                                   errors.New calls of the function, in source order (two calls with one message = one error)
 //   return nil                      None
 //   a != b ..                       on int / uint: Z comparisons; + - * on int / uint: wrap at 64 bits (int_add, uint_mul, ..)
 //   tm.F                            the projection of the model's record tileMatrix (table qtTMFields, checked against the
@@ -1190,13 +1191,12 @@ func genQuadTree(repo string) (string, error) {
 	if err := qtCheckFBetweenInc(repo); err != nil {
 		return "", err
 	}
-	// the errors.New calls in source order = the numbering of the model's verdict (Reject n)
+	// the distinct messages of the errors.New calls in source order = the numbering of the model's verdict (Reject n)
 	var ierr error
 	ast.Inspect(g.fd.Body, func(n ast.Node) bool {
 		switch x := n.(type) {
 		case *ast.CallExpr:
 			if types.ExprString(x.Fun) == "errors.New" {
-				g.errIdx[x] = len(g.errMsgs)
 				msg := ""
 				if len(x.Args) == 1 {
 					switch a := x.Args[0].(type) {
@@ -1208,7 +1208,25 @@ func genQuadTree(repo string) (string, error) {
 						}
 					}
 				}
-				g.errMsgs = append(g.errMsgs, strings.Trim(msg, "\"`"))
+				if msg == "" {
+					ierr = fmt.Errorf("errors.New without a message literal: %s", g.src(x))
+					return false
+				}
+				msg = strings.Trim(msg, "\"`")
+				// the number of an error = the index of its message among the distinct messages, in source order: two
+				// errors.New calls with the same message literal are the same error to the caller (since the repair of
+				// F22 the "range with step 1 starting with 0" message is returned from two places)
+				idx := -1
+				for i, m := range g.errMsgs {
+					if m == msg {
+						idx = i
+					}
+				}
+				if idx < 0 {
+					idx = len(g.errMsgs)
+					g.errMsgs = append(g.errMsgs, msg)
+				}
+				g.errIdx[x] = idx
 			}
 		case *ast.AssignStmt:
 			for _, l := range x.Lhs {
@@ -1261,13 +1279,13 @@ func genQuadTree(repo string) (string, error) {
 	b.WriteString("   - mathhelp.FBetweenInc(a / b, lo, hi) on float64 (FBetweenInc having the expected body)  =  fbetween_quo a b lo hi (binary64, Tms/Json.v f64);\n")
 	b.WriteString("   - != on *TwoDPoint values ([2]float64)  =  negb point_feqb;  != on CornerOfOrigin  =  negb corner_eqb;  len of a slice field = go_len;\n")
 	b.WriteString("   - tm.F  =  the projection of the record tileMatrix (field types checked against tms20/tms20.go); int / uint arithmetic wraps at 64 bits;\n")
-	b.WriteString("   - errors.New(..) number n in source order  =  Some n (the model's Reject n); nil = None; a nil dereference = QNilDeref. *)\n")
+	b.WriteString("   - errors.New(msg ..), msg the n-th distinct message literal in source order  =  Some n (the model's Reject n); nil = None;\n     a nil dereference = QNilDeref. *)\n")
 	b.WriteString("From Coq Require Import ZArith String List Bool.\nFrom Texel Require Import Tms.Json Tms.Model Tms.GoTms.\nImport ListNotations.\nOpen Scope Z_scope.\n\n")
 	var msgs []string
 	for _, m := range g.errMsgs {
 		msgs = append(msgs, coqString(m)+"%string")
 	}
-	fmt.Fprintf(&b, "(* the messages of the errors.New calls of IsQuadTree, in source order: Some n / Reject n is the n-th *)\nDefinition gen_isQuadTree_errors : list string :=\n [%s].\n\n", strings.Join(msgs, ";\n  "))
+	fmt.Fprintf(&b, "(* the distinct messages of the errors.New calls of IsQuadTree, in source order: Some n / Reject n is the n-th *)\nDefinition gen_isQuadTree_errors : list string :=\n [%s].\n\n", strings.Join(msgs, ";\n  "))
 	for _, d := range g.defs {
 		b.WriteString(d)
 		b.WriteString("\n")
